@@ -74,6 +74,7 @@ def cells(tier, seed):
         out.append({"k": "exact", "op": op, "via": "native"})
         out.append({"k": "exact", "op": op, "via": "program"})
         out.append({"k": "exact", "op": op, "via": "compound"})
+    out.append({"k": "witness"})
     for op in ("add", "sub", "mul", "div", "mod"):
         for ka in ("int", "dec", "null"):
             for kb in ("int", "dec", "null"):
@@ -320,6 +321,30 @@ def run(ctx, cell):
         return run_prec(ctx, cell)
     if k == "reeval":
         return run_reeval(ctx, cell)
+    if k == "witness":
+        # concrete operands beyond 2^53 / 2^63 (solver-chosen index): if the arithmetic goes through
+        # host floats the symbolic cells degrade to `Unsupported`; these witnesses still show it
+        ctx.reach("exact")
+        ws = [(2 ** 53 + 1, 1), (3307544270151327924, -1), (10 ** 30 + 1, 7), (-(2 ** 63) - 1, 3), (2 ** 64 + 1, 2 ** 32),
+              (9007199254740993, 9007199254740993), (-(10 ** 25), 10 ** 12 + 1), (2 ** 100, -3)]
+        a, b = ws[ctx.choice("w", len(ws))]
+        op = "+-*/%"[ctx.choice("op", 5)]
+        out = run_ckl("[a %s b, do def x = a; x %s= b; x end]" % (op, op), {"a": vint(a), "b": vint(b)})
+        detail = {"a": a, "b": b, "op": op, "got": ctx.plain(out)}
+        if out.kind != "ok":
+            ctx.fail("C02:witness:%s" % out.kind, detail)
+            return out
+        q = abs(a) // abs(b)
+        q = -q if (a < 0) != (b < 0) else q
+        exp = {"+": a + b, "-": a - b, "*": a * b, "/": q}.get(op)
+        for r in out.value.value:
+            ok = r.isInt() and isinstance(r.value, int)
+            if ctx.check(ok, "C02:witness:result-not-an-exact-int", detail):
+                if op == "%":
+                    ctx.check(abs(r.value) < abs(b) and (a - r.value) % b == 0, "C02:witness:remainder-law", detail)
+                else:
+                    ctx.check(r.value == exp, "C02:witness:inexact-beyond-2^53", detail)
+        return out
     if k == "exact":
         return run_exact(ctx, cell)
     if k == "kinds":
